@@ -2772,6 +2772,20 @@ struct Explorer {
         auto p = v->producer.find(rc.spec.id());
         if (p == v->producer.end()) continue;
         const Stmt& s = v->stmts[p->second];
+        // Bringing the manifest up to date is a build of its own (of build.ninja and what it needs) that ends before
+        // the requested targets are looked at -- also when a restat generator left the manifest alone and it is not
+        // read again: while a command of that build runs nothing outside it is startable.
+        if (v->producer.count("build.ninja")) {
+          set<int> mf;
+          Upstream(*v, v->producer.at("build.ninja"), &mf);
+          mf.insert(v->producer.at("build.ninja"));
+          bool regen_running = false;
+          for (int rcx : w.running) {
+            auto px = v->producer.find(r.cmds[rcx].spec.id());
+            if (px != v->producer.end() && mf.count(px->second)) regen_running = true;
+          }
+          if (regen_running && !mf.count(p->second)) continue;
+        }
         // ninja must be able to know that it needs the statement: one reachable only through
         // dyndep-supplied inputs is unknown until that dyndep file has been loaded
         {
